@@ -16,6 +16,7 @@ import (
 	"verif/checks/c11"
 	"verif/checks/c12"
 	"verif/checks/c13"
+	"verif/checks/c14"
 	"verif/checks/c15"
 	"verif/checks/c16"
 	"verif/engine/core"
@@ -39,6 +40,7 @@ var checks = map[string]check{
 	"C11": {"exploration", c11.Run},
 	"C12": {"model_checking", c12.Run},
 	"C13": {"exploration", c13.Run},
+	"C14": {"exploration", c14.Run},
 	"C15": {"fault_enumeration", c15.Run},
 	"C16": {"exploration", c16.Run},
 }
